@@ -930,6 +930,15 @@ func c19SeparatorByPosition(c *Ctx, rule string) {
 		}
 		for _, i := range allInstrs(f) {
 			ci, ok := i.(*ssa.Call)
+			if ok && calleeFullName(ci) == "strings.Join" {
+				if _, isConst := constString(ci.Call.Args[1]); isConst {
+					// strings.Join puts its separator between consecutive elements: by position, by construction
+					n++
+					c.analysed(relName(f))
+					c.okTrivial(rule, relName(f)+"#separator", ci.Pos(), "the separator is put between consecutive words by strings.Join")
+					continue
+				}
+			}
 			if !ok || !inLoop(ci) {
 				continue
 			}
